@@ -149,6 +149,14 @@ func (c *checkCtx) tryPlanOnce(p *plan.SchedPlan, key string) (bool, string) {
 	}
 	defer os.Remove(tmp)
 	bin, env := c.schedBin(q.Build)
+	if q.Procs > 1 {
+		env = append([]string{}, env...)
+		for i, e := range env {
+			if strings.HasPrefix(e, "GOMAXPROCS=") {
+				env[i] = fmt.Sprintf("GOMAXPROCS=%d", q.Procs)
+			}
+		}
+	}
 	w := runWorker(bin, []string{"sched-replay", "-file", tmp}, env, 5*time.Minute)
 	if w.ExitCode == 66 {
 		k, detail, harness, ok := c.S.parseRace(w.Stderr)
@@ -436,9 +444,23 @@ func (c *checkCtx) runSchedCold(prop, build string, firstPlan, nPlans, chunk int
 	type chunkT struct {
 		file  string
 		plans []json.RawMessage
+		multi bool
 	}
 	var chunks []chunkT
 	addChunk := func(ps []json.RawMessage) {
+		if len(chunks)%3 == 2 {
+			stamped := make([]json.RawMessage, len(ps))
+			for i, raw := range ps {
+				var p plan.SchedPlan
+				if json.Unmarshal(raw, &p) == nil {
+					p.Procs = 4
+					stamped[i] = mustMarshal(&p)
+				} else {
+					stamped[i] = raw
+				}
+			}
+			ps = stamped
+		}
 		f := filepath.Join(c.S.Dir, fmt.Sprintf("plans-%s-%d.jsonl", build, len(chunks)))
 		var b strings.Builder
 		for _, p := range ps {
@@ -446,7 +468,7 @@ func (c *checkCtx) runSchedCold(prop, build string, firstPlan, nPlans, chunk int
 			b.WriteByte('\n')
 		}
 		os.WriteFile(f, []byte(b.String()), 0o644)
-		chunks = append(chunks, chunkT{f, ps})
+		chunks = append(chunks, chunkT{f, ps, len(chunks)%3 == 2})
 	}
 	var rest []json.RawMessage
 	solo := 0
@@ -480,8 +502,20 @@ func (c *checkCtx) runSchedCold(prop, build string, firstPlan, nPlans, chunk int
 			defer func() { <-sem }()
 			var runs []WorkerRun
 			from := 0
+			// one process in three runs on four Ps: code that sizes its work by
+			// GOMAXPROCS then takes its parallel paths (the schedule is still
+			// decided by the simulator; parked callers merely spin on other Ps)
+			penv := env
+			if ch.multi {
+				penv = append([]string{}, env...)
+				for i, e := range penv {
+					if strings.HasPrefix(e, "GOMAXPROCS=") {
+						penv[i] = "GOMAXPROCS=4"
+					}
+				}
+			}
 			for attempt := 0; attempt < 6 && from < len(ch.plans); attempt++ {
-				w := runWorker(bin, []string{"sched-exec", "-file", ch.file, "-from", strconv.Itoa(from)}, env, timeout)
+				w := runWorker(bin, []string{"sched-exec", "-file", ch.file, "-from", strconv.Itoa(from)}, penv, timeout)
 				runs = append(runs, w)
 				if w.ExitCode != 66 && w.ExitCode != 3 {
 					break
